@@ -176,6 +176,7 @@ class C09(PropBase):
         "nodes are revisits and evaluate to exactly the type they stand for) and compared across spellings. Non-trivial: the returned "
         "sequence of an earlier call for the same root was mutated by its caller (F3), or the call follows a cache clear or another "
         "spelling of the same root; distinct = distinct (operation digest, pre-state signature) pairs."
+        ' Under the swept exhaustion fault the walk is first attempted from every stack depth at which it cannot complete; the order finally returned is judged as any other.'
     )
     ASSUMPTIONS = ["members of world classes are what typing.get_type_hints reports; stdlib and enum classes have none"]
 
